@@ -46,7 +46,14 @@ Theorem C07_mineral_n_nonneg : forall (x : nmove_in (T:=R)) (n : nat),
   nmove_wf x n -> forall z, (z < n)%nat -> 0 <= get 0 (nm_c1 x) z.
 Proof. exact c1_nonneg_lemma. Qed.
 
+(* tillage mixing preserves every organic pool and every mineralised-amount counter summed over the mixing
+   depth, for any whole number m >= 1 of mixed layers (the code mixes round(depth/10) layers) *)
+Theorem C07_tillage_mixing_conserves : forall (pool : list R) (m : nat),
+  (1 <= m <= length pool)%nat -> Rsum (@mix_pool R RNum (INR m) m pool) = Rsum pool.
+Proof. exact mix_pool_conserves. Qed.
+
 Print Assumptions C07_mineral_books.
+Print Assumptions C07_tillage_mixing_conserves.
 Print Assumptions C07_pools_nonneg.
 Print Assumptions C07_dissolved_le_applied.
 Print Assumptions C07_credited_once.
